@@ -1207,6 +1207,17 @@ def _register_shared():
     unit(P, "build_trees", fuc=["yaw.catalog.trees:build_trees"],
          cases=[dict(closed=c, has_weights=w, binned=True) for c in _C10.CLOSED for w in (False, True)] + [dict(closed="right", has_weights=w, binned=False) for w in (False, True)],
          trusted=["groupby contract", "np.digitize"])(_C10.u_build)
+    # the angles the pairs are counted in are the configured scales converted at the bin centre: theta = r / D(z) (C15 unit)
+    from . import C15 as _C15
+    from . import C07 as _C07
+    unit(P, "Scales.get_angle_radian", fuc=["yaw.cosmology:Scales.get_angle_radian", "yaw.cosmology:AngularScales._compute_angle",
+                                            "yaw.cosmology:PhysicalScales._compute_angle", "yaw.cosmology:ComovingScales._compute_angle"],
+         cases=[dict(unit_=u, cosmo=c) for u in _C15.UNITS for c in ("none", "given")])(_C15.u_scales)
+    # process_patch_pair walks the cached trees of both patches bin by bin: the iterator yields tree b at position b (C07 unit)
+    unit(P, "BinnedTrees.__iter__", fuc=["yaw.catalog.trees:BinnedTrees.__iter__"], cases=[dict(binned=False), dict(binned=True)])(_C07.u_iter)
+    # the linkage is built from the centres and radii the catalog reports, in patch order (C12 unit)
+    unit(P, "Catalog.accessors", fuc=["yaw.catalog.catalog:Catalog.get_centers", "yaw.catalog.catalog:Catalog.get_radii",
+                                      "yaw.catalog.catalog:Catalog.get_num_records"], kind="bounded")(_C12.u_accessors)
 
 
 # _register_shared() is called by the driver after this module is fully imported (no import cycles)
